@@ -10,6 +10,8 @@ import (
 	"context"
 	"encoding/json"
 	"fmt"
+	"reflect"
+	"strings"
 
 	pipeline "github.com/buildkite/go-pipeline"
 	"github.com/buildkite/go-pipeline/ordered"
@@ -37,6 +39,107 @@ func c02Str(r *core.Rand) string {
 	return core.Pick(r, []string{"build", "make test", "echo \"hi\"", "a\\b", "é😀", "x", "k=v", "tab\there", "<&>", "a,b", "true", "1", "null", "line1\nline2"})
 }
 
+// c02InterpEnv: the environment of the interpolate-first third. The VERIF_K* variables hold names of declared
+// step fields: a key written "${VERIF_KP}" becomes the unknown key "plugins" (finding F21).
+func c02InterpEnv() mapEnv {
+	return mapEnv{"FOO": "foo-value", "BAR": "", "VERIF_KP": "plugins", "VERIF_KE": "env", "VERIF_KM": "matrix", "VERIF_KC": "commands", "VERIF_KL": "label"}
+}
+
+// injectFieldNamedKey adds, to the first command-step mapping of the document that has room for it, an unknown
+// key that interpolates onto the name of a declared field the step does not use.
+func injectFieldNamedKey(r *core.Rand, doc any) bool {
+	var steps []any
+	switch t := doc.(type) {
+	case []any:
+		steps = t
+	case *ordered.MapSA:
+		if v, ok := t.Get("steps"); ok {
+			steps, _ = v.([]any)
+		}
+	}
+	cands := []struct {
+		ref, field string
+		val        any
+	}{
+		{"${VERIF_KP}", "plugins", []any{"docker#v1"}},
+		{"${VERIF_KE}", "env", ordered.MapFromItems(ordered.TupleSA{Key: "SMUGGLED", Value: "1"})},
+		{"${VERIF_KM}", "matrix", []any{"a", "b"}},
+		{"${VERIF_KL}", "label", "from-unknown-key"},
+	}
+	for _, st := range steps {
+		m, ok := st.(*ordered.MapSA)
+		if !ok || !m.Contains("command") {
+			continue
+		}
+		cand := cands[r.Intn(len(cands))]
+		if m.Contains(cand.field) {
+			continue
+		}
+		m.Set(cand.ref, cand.val)
+		return true
+	}
+	return false
+}
+
+// inlineShadowsField: some struct of the step tree holds, among its unknown fields, a key that is the yaml key (or
+// an alias) of one of its own declared fields — impossible after Parse, reachable through interpolated keys.
+func inlineShadowsField(ss pipeline.Steps) bool {
+	declared := func(v any) map[string]bool {
+		out := map[string]bool{}
+		t := reflect.TypeOf(v)
+		for t.Kind() == reflect.Pointer {
+			t = t.Elem()
+		}
+		for i := 0; i < t.NumField(); i++ {
+			tag := strings.Split(t.Field(i).Tag.Get("yaml"), ",")[0]
+			if tag != "" && tag != "-" {
+				out[tag] = true
+			}
+			for _, a := range strings.Split(t.Field(i).Tag.Get("aliases"), ",") {
+				if a != "" {
+					out[a] = true
+				}
+			}
+		}
+		return out
+	}
+	hit := func(v any, rem map[string]any) bool {
+		d := declared(v)
+		for k := range rem {
+			if d[k] {
+				return true
+			}
+		}
+		return false
+	}
+	for _, s := range ss {
+		switch t := s.(type) {
+		case *pipeline.CommandStep:
+			if hit(t, t.RemainingFields) {
+				return true
+			}
+			if t.Matrix != nil {
+				if hit(t.Matrix, t.Matrix.RemainingFields) {
+					return true
+				}
+				for _, a := range t.Matrix.Adjustments {
+					if a != nil && hit(a, a.RemainingFields) {
+						return true
+					}
+				}
+			}
+			if t.Cache != nil && hit(t.Cache, t.Cache.RemainingFields) {
+				return true
+			}
+		case *pipeline.GroupStep:
+			if hit(t, t.RemainingFields) || inlineShadowsField(t.Steps) {
+				return true
+			}
+		}
+	}
+	return false
+}
+
 func runC02(c *ctx) error {
 	sess := core.NewSession("parse")
 	rng := c.rng.Fork()
@@ -49,6 +152,7 @@ func runC02(c *ctx) error {
 	if c.thorough() {
 		reps = 5
 	}
+	probes := c.known.probeDocuments()
 	for i := 0; i < n; i++ {
 		o := &gen.Opts{R: rng, Str: c02Str, Key: gen.DefaultKey, UntypedExotic: true, MaxGroupDepth: 2, MaxMapSize: 12, Hist: c.res.Hist, GroupBias: 10}
 		doc := o.Pipeline()
@@ -73,8 +177,17 @@ func runC02(c *ctx) error {
 				}
 			}
 		}
+		if interpolateFirst && rng.Intn(12) == 0 {
+			// an unknown key of a command step whose name only becomes a declared field name through interpolation
+			if injectFieldNamedKey(rng, doc) {
+				c.res.Hist("step.unknown-key-interpolates-onto-a-field-name")
+			}
+		}
 		src, style := renderStyles(rng, doc)
-		if d := c.corpusAt(i, 4); d != nil {
+		if i < len(probes) {
+			src, style, interpolateFirst = probes[i], "known-finding-probe", true
+		}
+		if d := c.corpusAt(i-len(probes), 4); d != nil {
 			src, style = []byte(d.Document), "regression-corpus"
 			interpolateFirst = i%2 == 1
 		}
@@ -93,7 +206,7 @@ func runC02(c *ctx) error {
 				break
 			}
 			if interpolateFirst {
-				if err := p.Interpolate(mapEnv{"FOO": "foo-value", "BAR": ""}, false); err != nil {
+				if err := p.Interpolate(c02InterpEnv(), false); err != nil {
 					c.res.Hist("interpolate.error")
 					break
 				}
@@ -131,10 +244,29 @@ func runC02(c *ctx) error {
 			desc := map[string]any{"document": string(src), "style": style, "interpolated_first": interpolateFirst, "key": k.kind}
 			venv := copyEnv(penv)
 			venv["BUILDKITE_UNRELATED"] = "1"
-			jb, jerr := json.Marshal(p)
-			yb, yerr := yaml.Marshal(p)
+			// F21: after interpolation an unknown key may carry the name of a declared field of its struct
+			shadowKnown := ""
+			if interpolateFirst && inlineShadowsField(p.Steps) {
+				c.res.Hist("interpolated.unknown-key-shadows-a-field")
+				if id, ok := c.known.has("interpolated-key-equals-declared-field"); ok {
+					shadowKnown = id
+				}
+			}
+			var jb, yb []byte
+			var jerr, yerr error
+			if pn, msg := guard(func() {
+				jb, jerr = json.Marshal(p)
+				yb, yerr = yaml.Marshal(p)
+			}); pn {
+				c.res.Fail(core.OracleFailure{What: "marshalling the signed pipeline panics", Input: desc, Got: msg, Known: shadowKnown})
+				// (yaml.v3 panics on an inline key that equals a field key; the JSON leg is still judged)
+				yb, yerr = nil, nil
+				if jb == nil {
+					break
+				}
+			}
 			if jerr != nil || yerr != nil {
-				f := core.OracleFailure{What: "marshalling the signed pipeline fails", Input: desc, Got: fmt.Sprint(jerr, yerr)}
+				f := core.OracleFailure{What: "marshalling the signed pipeline fails", Input: desc, Got: fmt.Sprint(jerr, yerr), Known: shadowKnown}
 				if id, ok := c.known.has("nonfinite-float-json"); ok && jerr != nil {
 					f.Known = id
 				}
@@ -151,7 +283,7 @@ func runC02(c *ctx) error {
 			}
 			check := func(leg string, steps pipeline.Steps, venv map[string]string) {
 				cs := commandStepsOf(steps)
-				known := ""
+				known := shadowKnown
 				tree := dump.Pipeline(p)
 				if leg == "yaml/Parse" && hasMergeLookalike(tree) {
 					if id, ok := c.known.has("yaml-merge-lookalike-string"); ok {
@@ -193,9 +325,11 @@ func runC02(c *ctx) error {
 					}
 				}
 			} else {
-				c.res.Fail(core.OracleFailure{What: "re-parsing the JSON of a signed pipeline fails", Input: desc, Got: fmt.Sprint(err2)})
+				c.res.Fail(core.OracleFailure{What: "re-parsing the JSON of a signed pipeline fails", Input: desc, Got: fmt.Sprint(err2), Known: shadowKnown})
 			}
-			if !yamlLegExcluded(dump.Pipeline(p)) {
+			if yb == nil {
+				c.res.Hist("yaml-leg-marshal-panicked")
+			} else if !yamlLegExcluded(dump.Pipeline(p)) {
 				if p3, err3 := pipeline.Parse(bytes.NewReader(yb)); p3 != nil && (err3 == nil || warning.Is(err3)) {
 					check("yaml/Parse", p3.Steps, envOf(p3))
 				} else {
